@@ -162,6 +162,7 @@ func (r *Run) CheckUP4Image(prop, ctx, cause string, o UP4Opts) {
 	wantTermUL := map[termKey]*modelPDR{}
 	wantTermDL := map[termKey]*modelPDR{}
 	wantApps := map[appFilterKey]bool{}
+	appUser := map[appFilterKey]uint64{} // a live session that uses the filter (a tainted one when there is one)
 	wantPeers := map[uint32]bool{} // by peer address
 	ueOf := func(s *CPSession) uint32 {
 		for _, p := range s.PDRs {
@@ -178,6 +179,12 @@ func (r *Run) CheckUP4Image(prop, ctx, cause string, o UP4Opts) {
 			af := pdrAppFilter(p)
 			if af.has {
 				wantApps[af] = true
+				// a tainted user of the filter explains a discrepancy on its entry
+				if _, t := r.Taints[s.UPSEID]; t || appUser[af] == 0 {
+					if _, had := r.Taints[appUser[af]]; !had {
+						appUser[af] = s.UPSEID
+					}
+				}
 			}
 			if p.SrcIface == IfAccess {
 				wantSessUL[sessULKey{uint64(p.EffTEIDAddr()), uint64(p.EffTEID())}] = s
@@ -242,7 +249,11 @@ func (r *Run) CheckUP4Image(prop, ctx, cause string, o UP4Opts) {
 				present = append(present, fmt.Sprintf("%+v=id%d", pk, id))
 			}
 			sort.Strings(present)
-			bad(0, "applications", "entry-missing", "no applications entry for filter %+v used by a live PDR (entries present: %v)", k, present)
+			who := uint64(0)
+			if _, t := r.Taints[appUser[k]]; t {
+				who = appUser[k] // the entry of a session that met a listed trigger (e.g. its deletion was refused half-way)
+			}
+			bad(who, "applications", "entry-missing", "no applications entry for filter %+v used by a live PDR (entries present: %v)", k, present)
 		}
 	}
 
